@@ -3,8 +3,9 @@ from lib import semcheck, progs
 from lib.semcheck import impl, model_expr, compare, oracle, describe, shrink, IMPORTS
 
 ID = 'C01'
-THEOREMS = []
-CASE_TIMEOUT = 20
+THEOREMS = ['C01_compile_program_total', 'C01_compiled_program_computes_reference', 'C01_compiled_program_is_sld', 'C01_naming_equals_renaming_apart', 'C01_body_code_correct', 'C01_fresh_head_variable', 'C01_activations_use_fresh_cells', 'C01_distinct_variables_distinct_cells', 'C01_call_never_cuts']
+CASE_TIMEOUT = 60
+MODEL_NEEDS_IMPL = True
 COQ_CHUNK = 20
 RULE = ('random programs of facts and rules (2-5 predicates of arity 0-3 with 1-4 clauses, leaf fact predicates with 0-3 solutions that bind '
         'a distinct atom, list-recursion templates mem/app/len; heads with repeated, nested and anonymous variables, lists and [H|T] patterns; '
@@ -19,7 +20,7 @@ def gen(rng, tier):
     n = 220 if tier == 'quick' else 5000
     cases = []
     for _ in range(n):
-        o = progs.Opts(control=False, cut=False, builtins=False, deep=rng.random() < 0.1)
+        o = progs.Opts(open_leaves=0.5 if rng.random() < 0.3 else 0.0, control=False, cut=False, builtins=False, deep=rng.random() < 0.1)
         p = progs.gen_program(rng, o)
         cases.append({'clauses': p['clauses'], 'queries': p['queries']})
     return cases
